@@ -102,6 +102,24 @@ add("C17", "sched", "schedule-exploring property testing: harness-owned cooperat
     "property states; races between plain field accesses inside one interval are not explored), the package's own QLReader for the "
     "quicklogger format.", "DESIGN.md 4 C17")
 
+DEF_NOTE = ("Trusted base: the program generator and its expectation model (vlib/defgen.py, built by construction, independent of the parser), "
+            "gcc 12 (sizeof/offsetof/_Alignof/_Generic probe), node 20, ctypes, and - because no MATLAB/Octave exists in the sandbox - a small interpreter for "
+            "the statement subset the MATLAB back end emits (vlib/langs.py); JavaScript output carries no element widths, so agreement there is on names, "
+            "order, lengths and kind.")
+add("C04", "defgen", "differential property testing of the four language outputs (generated definition closures; gcc/ctypes/node/MATLAB-interpreter signatures compared with each other and with the generator's expectation)",
+    "Generated definition closures (covering family for all 26 native type names as scalar, array element and alias target + random programs with "
+    "aliases, nesting, arrays, signals, reuse, padding, import graphs) are compiled for real; ids, hashes, constants, field names/order/lengths/element "
+    "types and gcc sizeof/offsetof vs ctypes vs recorded type_size vs MATLAB element sizes must agree. Exploration level.", DEF_NOTE, "DESIGN.md 4 C04")
+add("C15", "defgen", "grammar-based property testing: every generated well-formed closure must compile and load in Python, C (gcc), JavaScript (node) and the MATLAB interpreter; failures bucketed by (language, kind, construct class)",
+    "Generated well-formed programs over every documented construct, biased towards cross-file references; compile() must not raise, the Python "
+    "module must import in a fresh interpreter and register every message, gcc must accept the header, node must import the module and every "
+    "factory must return fresh objects with pairwise distinct array elements, the MATLAB script must only reference defined fields. "
+    "Exploration level.", DEF_NOTE, "DESIGN.md 4 C15")
+add("C16", "defgen", "metamorphic property testing (compile twice in separate processes with different cwd / output dir / hash seed; combined-YAML round trip through the CLI; shipped core_defs.py vs fresh compilation, with generated one-token edits as sensitivity cases)",
+    "Byte-identical outputs of repeated compilations, signature equality after recompiling NAME_combined.yaml through the command line, and AST + "
+    "signature equality of the shipped core_defs.py with a fresh compilation of the shipped YAML. Three open findings (combined YAML cannot express "
+    "three cross-file constructs) are listed in KNOWN_FINDINGS.txt. Exploration level.", DEF_NOTE, "DESIGN.md 4 C16")
+
 PLANNED = {}
 
 
